@@ -477,9 +477,17 @@ func setMapField(field reflect.Value, fieldType reflect.Type, isPtr bool, mapArr
 }
 
 // setFieldFromString sets a struct field from a string default value.
+//
+// A pointer field gets a freshly allocated pointee: calling SetString/SetInt on
+// the pointer Value itself panics.
 func setFieldFromString(field reflect.Value, fieldType reflect.Type, s string) error {
 	if fieldType.Kind() == reflect.Ptr {
-		fieldType = fieldType.Elem()
+		ptr := reflect.New(fieldType.Elem())
+		if err := setFieldFromString(ptr.Elem(), fieldType.Elem(), s); err != nil {
+			return err
+		}
+		field.Set(ptr)
+		return nil
 	}
 	switch fieldType.Kind() {
 	case reflect.String:
